@@ -12,6 +12,7 @@ import Fir.Model.SimdU8x4
 import Fir.Model.SimdVertU8
 import Fir.Model.SimdU8x3
 import Fir.Model.SimdVertU16
+import Fir.Model.SimdU8x1
 namespace Fir
 
 /-- C02 tolerance between two back-ends: integers identical, f32 a few ulps of a re-associated f64 sum -/
@@ -160,11 +161,25 @@ def handleKernel (fs : List (String × String)) : String :=
                 return some s!"lane model of the {ext} vertical u16 kernel: row {y} component {i}: model={outRow.getD i 0} got={got[y * rowLen + i]!}"
           return none
         else none
-      let lane := match lane, laneV, lane3, laneV16 with
-        | some a, _, _, _ => some a
-        | none, some b, _, _ => some b
-        | none, none, some c, _ => some c
-        | none, none, none, d => d
+      -- single-channel 8-bit images on SSE4.1, horizontal pass (four-row blocks and leftover rows do the same per row)
+      let lane1 : Option String :=
+        if p.kind == .u8 ∧ p.n == 1 ∧ ext == "sse4" ∧ pass == "h" ∧ got.size == dw * dh then Id.run do
+          let q := normalize16 c
+          for y in [0:dh] do
+            let row : List Int := (List.range sw).map fun i => src[(offset + y) * sw + i]!
+            for x in [0:dw] do
+              let (start, ks) := q.chunks.getD x (0, #[])
+              let px := SimdU8x1.pixel q.precision row start ks.toList
+              if px ≠ got[y * dw + x]! then
+                return some s!"lane model of the SSE4.1 U8 horizontal kernels: pixel ({x},{y}): model={px} got={got[y * dw + x]!}"
+          return none
+        else none
+      let lane := match lane, laneV, lane3, laneV16, lane1 with
+        | some a, _, _, _, _ => some a
+        | none, some b, _, _, _ => some b
+        | none, none, some c, _, _ => some c
+        | none, none, none, some d, _ => some d
+        | none, none, none, none, e => e
       let m := match m, lane with
         | some a, _ => some a
         | none, some b => some b
